@@ -77,6 +77,9 @@ func c12World(t *testing.T, r *simcore.Run) any {
 			op := c12Op{Caller: c}
 			if tp.Bool(1, 2, "gap?") {
 				op.Gap = gapChoices[tp.Intn(len(gapChoices), "gap")]
+				if op.Gap >= time.Hour {
+					r.Fault("idle-gap-hours-to-days")
+				}
 				if tp.Bool(1, 4, "gapjit") {
 					op.Gap += time.Duration(tp.Range(0, int64(time.Hour), "gapj"))
 				}
